@@ -959,6 +959,13 @@ impl<'ast, 'p> Visit<'ast> for Ctx<'p> {
             let (bs, be) = br(f.body.span());
             let ord = self.fn_stack.last().map(|f| f.loop_ord).unwrap_or(0);
             let it = format!("vx_it{}", ord);
+            // `//@ loop N after`: proof text right after the loop (inside the block that holds the iterator variable)
+            let after = self
+                .fn_stack
+                .last()
+                .and_then(|f| if f.external { None } else { f.contract.as_ref().and_then(|c| c.loops.get(&format!("{}.after", ord)).cloned()) })
+                .map(|t| format!("\n{}\n", t.trim_end()))
+                .unwrap_or_default();
             self.replace(
                 s,
                 e,
@@ -970,7 +977,7 @@ impl<'ast, 'p> Visit<'ast> for Ctx<'p> {
                     Part::Src(ps, pe),
                     Part::Lit(format!(") = {it}.next() ")),
                     Part::Src(bs, be),
-                    Part::Lit(" }".into()),
+                    Part::Lit(format!("{after} }}")),
                 ],
             );
             self.log(s, "R1", "for -> while let Some(..) = it.next()");
